@@ -7,6 +7,7 @@ import numpy as np
 import pandas as pd
 import tlz as toolz
 from dask import compute
+from dask.base import tokenize
 from dask.dataframe.core import _concat, make_meta
 from dask.dataframe.shuffle import (
     barrier,
@@ -1315,9 +1316,17 @@ def _calculate_divisions(
     if is_index_like(other._meta):
         other = ToSeriesIndex(other)
 
+    # Seed the quantile sampling independently of how ``other`` is spelled: the
+    # same set_index / sort_values below different column projections must
+    # arrive at the same divisions
+    random_state = int(tokenize(npartitions, upsample), 16) % np.iinfo(np.int32).max
     try:
         divisions, mins, maxes = compute(
-            new_collection(RepartitionQuantiles(other, npartitions, upsample=upsample)),
+            new_collection(
+                RepartitionQuantiles(
+                    other, npartitions, upsample=upsample, random_state=random_state
+                )
+            ),
             new_collection(other).map_partitions(M.min),
             new_collection(other).map_partitions(M.max),
         )
